@@ -102,7 +102,9 @@ class Norm:
         if k == 'iter': return ('iter', N(t[1]))
         if k == 'iterpos': return ('iter', N(t[1]))
         if k == 'iternext': return ('iternext', N(t[1]), t[2])
-        if k == 'resp': return t
+        if k == 'resp':
+            return ('resp', tuple(('rmsg', N(m[1])) for m in t[1] if m[0] in ('msg', 'submsg') and isinstance(m[1], tuple)),
+                    tuple(('rattr', N(a[1]), N(a[2]) if a[2] is not None else None) for a in t[2] if a[0] == 'attr'))
         if k == 'errmap': return ('errmap',)
         if k == 'errfn': return ('errfn',)
         if k == 'closure': return ('closure', t[1], tuple((n, N(v)) for n, v in t[2]))
@@ -217,6 +219,12 @@ class Norm:
 
 # ------------------------------------------------------------------ pretty printer
 def P(t, depth=0):
+    try:
+        return _P(t, depth)
+    except Exception:
+        return repr(t)[:200]
+
+def _P(t, depth=0):
     if not isinstance(t, tuple): return repr(t)
     if not t: return '()'
     k = t[0]
